@@ -74,7 +74,8 @@ def node(w, hist, cfg, res):
 def run(rep, tier, seed, workers):
     depth = 6 if tier == 'quick' else 7
     rep.rule = (
-        'all sequences up to the depth over {modify a / n, link n, add n, '
+        'all sequences up to the depth over {modify a / n, rewrite the blob '
+        'B (FileStorage with a blob directory), link n, add n, '
         'unlink n, savepoint (at most 2 live handles; 3 thorough), rollback '
         'to any live handle, commit, abort} on a real connection; after '
         'every step ownership and value of every tracked object, root '
@@ -83,7 +84,10 @@ def run(rep, tier, seed, workers):
         'rollback')
     states = 0
     plan = [dict(prop='C12', kind='M', d=depth),
-            dict(prop='C12', kind='F', d=depth - 1)]
+            dict(prop='C12', kind='F', d=depth - 1),
+            # blob writes: an existing blob next to a plain and a new object
+            dict(prop='C12', kind='Fb', d=depth - 1,
+                 objects=('a', 'n', 'B'), kinds=KINDS + ['bwrite'])]
     if tier != 'quick':
         plan.append(dict(prop='C12', kind='M', d=depth - 1,
                          objects=('a', 'n', 'm'), max_handles=3))
@@ -92,7 +96,7 @@ def run(rep, tier, seed, workers):
         fps = seqx.explore(rep, MOD, cfg, d, workers, seed, split=3)
         states += len(fps)
         rep.bounds['%s%s depth' % (cfg['kind'], '/3obj' if cfg.get(
-            'objects') else '')] = d
+            'max_handles') else '')] = d
     rep.cov['states'] = max(states, 1)
     rep.assumptions = [
         'the in-memory attributes of an object that belongs to no database '
